@@ -383,6 +383,15 @@ def run(ctx):
                                 ctx.inst("C18.R11", "%s#message-from-whole-error" % d_.replace(CORE, ""), False, "a RuntimeError's message is formatted from a whole RuntimeError: each frame that does this includes the previous rendering (message, context, source excerpt) once more", H.loc(m_))
     ctx.inst("C18.R11", "message-from-whole-error#none", n_self == 0, "RuntimeError messages built from a whole RuntimeError: %d" % n_self, None)
 
+    # ---------------- R12 how deep a written chain of operators nests
+    ctx.rule("C18.R12", "a body of ordinary nesting is read with ordinary nesting: the parser's binding levels and associativities are the documented ones, so a flat chain `a ?? b ?? c ?? f(n + 1)` nests to the left (the recursive call one operator level deep) - merged into a right-associative level it nests once per operator, and every level is a native evaluate_binary_op_ast frame per call", floor=20)
+    from rules import c10 as c10_
+    c10_.CRATE[0] = core
+    try:
+        c10_.binding_levels_rule(ctx, "C18.R12", core, c10_.precedence_rows(core))
+    except CheckerError as ex_:
+        ctx.inst("C18.R12", "levels#count", None, "binding levels not read: %s" % ex_, "blots-core/src/precedence.rs")
+
     ctx.rule("C18.R3s", "the evaluator runs on the main thread (8 MiB default) or on a thread whose explicit stack size is at least that; recorded for the stack budget", floor=1)
     sizes = []
     for name, f in cg.fns.items():
